@@ -6,6 +6,13 @@ from c03_resume import cv_block
 WIDTHS = [0.25, 0.5, 1.0, 2.0]
 
 
+def np_prod(l):
+    p = 1
+    for x in l:
+        p *= x
+    return p
+
+
 def vec(l):
     return " ".join("%r" % x for x in l)
 
@@ -222,6 +229,59 @@ def gen_extlag(r, k, T):
             "pos": pos, "model": {"x": X, "r": RM, "nobias": bias == "none"}}
 
 
+def gen_mts(r, k, T):
+    """multiple time stepping: variable and bias with timeStepFactor f are computed every f-th absolute step"""
+    f = r.choice([2, 3])
+    ext = r.random() < 0.5
+    ex = ["timeStepFactor %d" % f]
+    tags = ["mts", "factor=%d" % f]
+    if ext:
+        ex += ["extendedLagrangian on", "extendedFluctuation 0.5", "extendedTimeConstant 100.0", "extendedLangevinDamping 0.0"]
+        tags.append("extended")
+    cfg = cv_block(0, width=1.0, extra=ex)
+    kind = r.choice(["harmonic", "moving", "meta"])
+    tags.append("bias=" + kind)
+    if kind == "meta":
+        cfg += ["metadynamics {", "  name m", "  colvars v0", "  timeStepFactor %d" % f, "  hillWeight 0.5",
+                "  newHillFrequency %d" % (f * r.choice([1, 2])), "  hillWidth 2.0", "  useGrids off", "}"]
+    else:
+        cfg += ["harmonic {", "  name r", "  colvars v0", "  timeStepFactor %d" % f, "  forceConstant 2.0",
+                "  centers %r" % V.dyadic(r, -1, 1, bits=2)]
+        if kind == "moving":
+            cfg += ["  targetCenters %r" % V.dyadic(r, -1.5, 1.5, bits=2), "  targetNumSteps %d" % (f * r.choice([2, 3, 5])),
+                    "  outputAccumulatedWork on"]
+        cfg.append("}")
+    start = [V.dyadic(r, -1.0, 1.0, bits=3)]
+    return {"fam": "mts", "tags": tags, "sigtags": [], "natoms": 1, "setup": ["dt 1.0", "temperature 300.0"], "config": cfg,
+            "sleep_factor": f, "mts_extended": ext, "it0": r.choice([0, 0, 3, 4]), "pos": walk(r, T, 1, lo=-1.5, hi=1.5, bits=5, stay=0.1, start=start)}
+
+
+def gen_ti(r, k, T):
+    """thermodynamic-integration samples of a restraint or of metadynamics (colvarbias_ti): total forces on a grid, in the state"""
+    same = r.random() < 0.5
+    w = r.choice([0.5, 1.0])
+    nx = r.randint(3, 6)
+    lo = V.dyadic(r, -3, 0, bits=2)
+    sub = r.random() < 0.3
+    cfg = cv_block(0, width=w, lower=lo, upper=lo + nx * w, extra=["subtractAppliedForce on"] if sub else [],
+                   cvc_extra=["oneSiteTotalForce on"])
+    kind = r.choice(["harmonic", "moving", "meta"])
+    tags = ["ti", "samestep" if same else "lagged", "bias=" + kind] + (["subtract"] if sub else [])
+    ti = ["  writeTISamples on", "  writeTIPMF on"]
+    if kind == "meta":
+        cfg += ["metadynamics {", "  name b", "  colvars v0", "  hillWeight 0.5", "  newHillFrequency %d" % r.choice([1, 2, 3]),
+                "  hillWidth 2.0"] + ti + ["}"]
+    else:
+        cfg += ["harmonic {", "  name b", "  colvars v0", "  forceConstant %r" % r.choice([0.5, 1.0, 2.0]),
+                "  centers %r" % V.dyadic(r, -2, 2, bits=2)]
+        if kind == "moving":
+            cfg += ["  targetCenters %r" % V.dyadic(r, -2, 2, bits=2), "  targetNumSteps %d" % r.choice([4, 8, 20])]
+        cfg += ti + ["}"]
+    return {"fam": "ti", "tags": tags, "sigtags": [], "natoms": 1, "setup": ["samestep %d" % (1 if same else 0), "includecv 1", "temperature 300.0"],
+            "config": cfg, "it0": r.choice([0, 0, 4]), "show_tf": True, "tf_lagged": not same,
+            "pos": walk(r, T, 1, lo=lo - 0.5, hi=lo + nx * w + 0.5, bits=3), "ef": forces(r, T, 1)}
+
+
 # ------------------------------------------------------------------------------------------------ ABMD
 def gen_abmd(r, k, T):
     w = 1.0
@@ -305,6 +365,23 @@ def gen_abf(r, k, T):
             "pos": walk(r, T, nv, lo=-3.5, hi=3.5, bits=3), "ef": forces(r, T, nv), "model": M}
 
 
+def gen_pabf(r, k, T):
+    """projected ABF: the bias force is the gradient of the PMF integrated every pABFintegrateFreq steps"""
+    c = gen_abf(r, k, T)
+    while c["model"]["nd"] != 2:      # the PMF gradient by finite differences exists in two and three dimensions only
+        c = gen_abf(r, k, T)
+    freq = r.choice([1, 2, 3, 4])
+    cfg = c["config"]
+    i = cfg.index("abf {")
+    cfg[i + 1:i + 1] = ["  integrate on", "  pABFintegrateFreq %d" % freq]
+    c.pop("model", None)
+    c["fam"] = "pabf"
+    c["tags"] = ["pabf", "freq=%d" % freq] + c["tags"][1:]
+    c["sigtags"] = []
+    c["collapse"] = "all"
+    return c
+
+
 # ------------------------------------------------------------------------------------------------ metadynamics
 def gen_meta(r, k, T):
     # the first four cases of every run: hills pending when the state is written (gridsUpdateFrequency does not
@@ -356,6 +433,39 @@ def gen_meta(r, k, T):
         B += ["  wellTempered on", "  biasTemperature %r" % bt]
         tags.append("wt")
         M["wt"], M["bt"] = True, bt
+    files = {}
+    M["eb"] = None
+    # ensemble-biased metadynamics: hills scaled by the inverse target distribution, ramped in during
+    # ebMetaEquilSteps ABSOLUTE steps (cases 4 and 5 of every run, and now and then)
+    if use_grids and not any(v.get("expand") for v in M["vars"]) and (k in (4, 5) or r.random() < 0.15):
+        raw = [r.choice([0.125, 0.25, 0.5, 1.0, 2.0]) for _ in range(int(np_prod([v["nx"] for v in M["vars"]])))]
+        equil = r.choice([0, 3, 6, 10]) if k not in (4, 5) else r.choice([4, 7, 10])
+        fname = "c03_target_%d_%d.dat" % (k, r.randint(0, 10 ** 6))
+        L = ["# %d" % nv]
+        for v in M["vars"]:
+            L.append("# %r %r %d %d" % (v["lower"], v["w"], v["nx"], 0))
+        idx = [[]]
+        for v in M["vars"]:
+            idx = [i + [q] for i in idx for q in range(v["nx"])]
+        for a_, ix in enumerate(idx):
+            if ix[-1] == 0:
+                L.append("")
+            L.append(" " + " ".join("%r" % (v["lower"] + v["w"] * (0.5 + q)) for v, q in zip(M["vars"], ix)) + "  %r" % raw[a_])
+        files[fname] = "\n".join(L) + "\n"
+        B += ["  ebMeta on", "  targetDistFile %s" % fname, "  ebMetaEquilSteps %d" % equil]
+        tags.append("ebMeta")
+        tags.append("equil=%s" % ("0" if equil == 0 else ">0"))
+        # init_ebmeta_params: small values raised to 1e-6 of the maximum, normalised to integral 1, times exp(entropy)
+        d = list(raw)
+        thr = max(d) * (1 / 1000000.0)
+        d = [max(t, thr) for t in d]
+        vol = 1.0
+        for v in M["vars"]:
+            vol *= v["w"]
+        I = vol * sum(d)
+        d = [t * (1.0 / I) for t in d]
+        S = vol * sum(-1.0 * t * math.log(t) for t in d if t > 0)
+        M["eb"] = {"equil": equil, "target": [t * math.exp(S) for t in d]}
     B.append("}")
     p_out = 0.0 if forced else r.choice([0.0, 0.0, 0.2])
     if p_out:
@@ -371,7 +481,7 @@ def gen_meta(r, k, T):
                 pos[t] = [z - 6.0 for z in pos[t]]
     return {"fam": "meta", "tags": tags, "sigtags": ["pending-hills"] if pending else [],
             "collapse": "obs" if pending else None, "natoms": nv, "setup": ["temperature 300.0"], "config": cfg + B,
-            "it0": r.choice([0, 0, 5]), "pos": pos, "model": M}
+            "it0": r.choice([0, 0, 5]), "pos": pos, "model": M, "files": files}
 
 
 # ------------------------------------------------------------------------------------------------ OPES
@@ -392,8 +502,25 @@ def gen_opes(r, k, T):
     if r.random() < 0.3:
         B.append("  calcWork on")
         tags.append("calcWork")
+    # paths of update_opes: adaptive kernel widths, neighbour list, no normalisation, fixed widths, PMF grid
+    o = r.random()
+    if o < 0.2:
+        B += ["  adaptiveSigma on", "  adaptiveSigmaStride %d" % (pace * r.choice([1, 2])), "  gaussianSigmaMin " + vec([0.125] * nv)]
+        tags.append("adaptiveSigma")
+    elif o < 0.4:
+        B += ["  neighborList on"] + (["  neighborListNewHillReset on"] if r.random() < 0.5 else [])
+        tags.append("neighborList")
+    elif o < 0.5:
+        B += ["  noZed on"]
+        tags.append("noZed")
+    elif o < 0.6:
+        B += ["  fixedGaussianSigma on", "  recursiveMerge off"]
+        tags.append("fixedSigma")
+    if r.random() < 0.3:
+        B += ["  pmf on", "  pmfColvars v0", "  pmfHistoryFrequency %d" % r.choice([0, 4])]
+        tags.append("pmf")
     B.append("}")
-    return {"fam": "opes", "tags": tags, "sigtags": [], "collapse": None, "natoms": nv, "setup": ["temperature 300.0", "restartfreq %d" % rf],
+    return {"fam": "opes", "tags": tags, "sigtags": [t for t in ("adaptiveSigma", "pmf") if t in tags], "collapse": None, "natoms": nv, "setup": ["temperature 300.0", "restartfreq %d" % rf],
             "config": cfg + B, "it0": 0, "pos": walk(r, T, nv, lo=-3.0, hi=3.0, bits=3), "restartfreq": rf,
             "needs_prefix": True}
 
@@ -482,4 +609,4 @@ def gen_multi(r, k, T):
             "config": cfg + B, "it0": r.choice([0, 4]), "pos": walk(r, T, 2, lo=-2.5, hi=2.5, bits=3), "shuffle": True}
 
 
-FAMILIES = {"multi": gen_multi, "runave": gen_runave, "histrestraint": gen_histrestraint, "eabf": gen_eabf, "opes": gen_opes, "restraint": gen_restraint, "histogram": gen_histogram, "extlag": gen_extlag, "abmd": gen_abmd, "alb": gen_alb, "abf": gen_abf, "meta": gen_meta}
+FAMILIES = {"ti": gen_ti, "pabf": gen_pabf, "mts": gen_mts, "multi": gen_multi, "runave": gen_runave, "histrestraint": gen_histrestraint, "eabf": gen_eabf, "opes": gen_opes, "restraint": gen_restraint, "histogram": gen_histogram, "extlag": gen_extlag, "abmd": gen_abmd, "alb": gen_alb, "abf": gen_abf, "meta": gen_meta}
